@@ -205,7 +205,9 @@ func (c *MapCodec) readMapEntry(mp, k unsafe.Pointer, data []byte) (int, error) 
 	}
 
 	if index == 1 {
-		// Key is present - read it
+		// Key is present - read it. The key area is re-used for every entry
+		// and codecs only write what is present in the data, so clear it first
+		typedmemclr(unpackEFace(c.rtype.Key()).data, k)
 		n, err := c.keyCodec.Read(data[offset:fieldEnd], k, wt)
 		if err != nil {
 			return 0, fmt.Errorf("failed reading key field of %s. %w", c.rtype.Name(), err)
